@@ -136,7 +136,7 @@ def effective_kids(U: Universe, s: S) -> dict[str, Any]:
         if f.name in s.kids:
             out[f.name] = s.kids[f.name]
         else:
-            out[f.name] = () if f.shape in ("tuple",) else None
+            out[f.name] = () if f.shape in ("tuple", "list") else None
     return out
 
 
